@@ -477,3 +477,75 @@ def _per_instance_control():
     finally:
         shutil.rmtree(d, ignore_errors=True)
     _PI_CONTROL_DONE = True
+
+
+# ----------------------------------------------- reachability with flags
+def reach_flagged(cfg, func, start, edge_ok):
+    """nodes reachable from `start` over edges accepted by edge_ok(a, b,
+    label), where local variables that only ever hold True/False constants
+    (loop flags like `locked`) are tracked, so that a test on such a flag
+    only leaves through the edge its value allows"""
+    flags = {}
+    for n in ast.walk(func):
+        if isinstance(n, ast.Name) and isinstance(n.ctx, ast.Store):
+            flags.setdefault(n.id, True)
+    for st in ast.walk(func):
+        tg = []
+        if isinstance(st, ast.Assign):
+            tg = [(t, st.value) for t in st.targets]
+        elif isinstance(st, (ast.AugAssign, ast.AnnAssign)):
+            tg = [(st.target, None)]
+        elif isinstance(st, (ast.For, ast.AsyncFor)):
+            tg = [(st.target, None)]
+        elif isinstance(st, (ast.With, ast.AsyncWith)):
+            tg = [(i.optional_vars, None) for i in st.items
+                  if i.optional_vars is not None]
+        elif isinstance(st, ast.ExceptHandler) and st.name:
+            flags[st.name] = False
+        for t, v in tg:
+            for x in ast.walk(t):
+                if isinstance(x, ast.Name):
+                    if not (isinstance(t, ast.Name) and isinstance(
+                            v, ast.Constant) and isinstance(v.value, bool)):
+                        flags[x.id] = False
+    names = sorted(k for k, ok in flags.items() if ok)
+
+    def step_state(node, state):
+        st = node.stmt
+        if node.kind == "stmt" and isinstance(st, ast.Assign) and len(
+                st.targets) == 1 and isinstance(st.targets[0], ast.Name) \
+                and st.targets[0].id in names:
+            state = dict(state)
+            state[st.targets[0].id] = st.value.value
+        return state
+
+    def allowed(node, label, state):
+        if node.kind != "test" or label not in ("true", "false"):
+            return True
+        e = node.expr
+        want = label == "true"
+        if isinstance(e, ast.UnaryOp) and isinstance(e.op, ast.Not):
+            e = e.operand
+            want = not want
+        if isinstance(e, ast.Name) and e.id in names and \
+                state.get(e.id) is not None:
+            return state[e.id] == want
+        return True
+    seen = set()
+    out = set()
+    init = tuple((k, None) for k in names)
+    work = [(start, init)]
+    while work:
+        node, st_t = work.pop()
+        if (node.id, st_t) in seen:
+            continue
+        seen.add((node.id, st_t))
+        out.add(node)
+        state = step_state(node, dict(st_t))
+        for m, label in node.succ:
+            if not edge_ok(node, m, label):
+                continue
+            if not allowed(node, label, state):
+                continue
+            work.append((m, tuple(sorted(state.items()))))
+    return out
